@@ -14,6 +14,7 @@ BOUNDS = {
     "quick": "get_marginal: D<=3, every non-empty ordered index list without repetition for D<=2 and all lists of D=3 up to order-representatives, R<=2, full and diagonal densities, fully symbolic; linear sum: Dsum=1 fully symbolic D<=3, Dsum=2 semi-symbolic (W or Sigma concrete)",
     "thorough": "all ordered lists of D=3, D=4 semi-symbolic (Sigma concrete), R=3, Dsum=D=2 with only one block concrete, Dsum=3=D semi",
 }
+ASSUMPTIONS = ["full row rank of W is the precondition det(W W') != 0 (a side condition of the inverse in the oracle)"]
 
 
 def _sublists(D, ordered=True):
